@@ -1,9 +1,4 @@
-import Driver.Util
+import Driver.RpcTrace
 namespace Driver.C16
-open Mtv Driver
-
-/-- operations of property C16; not built yet -/
-def handle : List String → String
-  | _ => "bad-op"
-
+def handle (toks : List String) : String := Driver.RpcTrace.handle "c16" toks
 end Driver.C16
